@@ -89,6 +89,12 @@ def _spec(e, sig, ip, dtname, axis_kind, rank):
             return S.lift((rank == 0) if x.op == "not" else (rank > 0))
         if x.op == "call":
             nm = x.args[0]
+            if nm in ("numpy.issubdtype", "np.issubdtype") and len(x.args) == 3 and S.show(x.args[1]) in dt_names:
+                cls = S.show(x.args[2]).split(".")[-1]
+                table = {"floating": kind == "f", "inexact": kind == "f", "integer": kind in "iu", "signedinteger": kind == "i", "unsignedinteger": kind == "u",
+                         "number": True, "float64": f64, "float32": dtname == "float32", "int16": dtname == "int16"}
+                if cls in table:
+                    return S.lift(table[cls])
             if nm in (".shape", ".ndim", ".dtype") and len(x.args) == 2:
                 inner = x.args[1]
                 if nm != ".dtype" and SC.is_call(inner, ".astype", "numpy.moveaxis") and nm == ".ndim" or (nm == ".shape" and SC.is_call(inner, ".astype")):
